@@ -318,9 +318,46 @@ class Evaluator(object):
         return out
 
     # ----------------------------------------------------------- statements
+    @staticmethod
+    def _normalise_block(stmts):
+        """`X = []` followed by `for v in it: [if c:] X.append(elt)` is the list comprehension `X = [elt for v in it if c]`: both spellings get the same term.
+        (only when the loop body is exactly that, has no else, and X is not read inside the loop)"""
+        out = []
+        i = 0
+        while i < len(stmts):
+            a = stmts[i]
+            b = stmts[i + 1] if i + 1 < len(stmts) else None
+            done = False
+            if isinstance(a, ast.Assign) and len(a.targets) == 1 and isinstance(a.targets[0], ast.Name) and isinstance(a.value, ast.List) and not a.value.elts \
+                    and isinstance(b, ast.For) and not b.orelse and len(b.body) == 1:
+                x = a.targets[0].id
+                inner = b.body[0]
+                conds = []
+                while isinstance(inner, ast.If) and not inner.orelse and len(inner.body) == 1:
+                    conds.append(inner.test)
+                    inner = inner.body[0]
+                if isinstance(inner, ast.Expr) and isinstance(inner.value, ast.Call) and isinstance(inner.value.func, ast.Attribute) and inner.value.func.attr == 'append' \
+                        and isinstance(inner.value.func.value, ast.Name) and inner.value.func.value.id == x and len(inner.value.args) == 1 and not inner.value.keywords:
+                    elt = inner.value.args[0]
+                    reads = [n for part in [elt, b.iter] + conds for n in ast.walk(part) if isinstance(n, ast.Name) and n.id == x]
+                    if not reads:
+                        comp = ast.ListComp(elt=elt, generators=[ast.comprehension(target=b.target, iter=b.iter, ifs=conds, is_async=0)])
+                        new = ast.Assign(targets=[ast.Name(id=x, ctx=ast.Store())], value=comp)
+                        ast.copy_location(new, b)
+                        ast.copy_location(comp, b)
+                        ast.fix_missing_locations(new)
+                        out.append(new)
+                        i += 2
+                        done = True
+            if not done:
+                out.append(a)
+                i += 1
+        return out
+
     def exec_block(self, stmts, st):
         """-> list of (status, state); status None | 'break' | 'continue'"""
         states = [(None, st)]
+        stmts = self._normalise_block(stmts)
         for stmt in stmts:
             new = []
             for status, s in states:
